@@ -137,7 +137,12 @@ def from_sym(e):
     return Poly(e)
 
 
+JET = None         # jet mode (R-SERIES): the module engine.jetnum; scalars are truncated power series
+
+
 def amul(a, b):
+    if JET is not None and (isinstance(a, JET.JetNum) or isinstance(b, JET.JetNum)):
+        return JET.mul(a, b) if isinstance(a, (Aff, Poly)) and isinstance(b, (Aff, Poly)) else TOP
     if POLY and isinstance(a, (Aff, Poly)) and isinstance(b, (Aff, Poly)) and not (isinstance(a, Aff) and a.is_const()) and not (isinstance(b, Aff) and b.is_const()):
         return from_sym(to_sym(a) * to_sym(b))
     if isinstance(a, Poly) or isinstance(b, Poly):
@@ -145,6 +150,18 @@ def amul(a, b):
             return from_sym(to_sym(a) * to_sym(b))
         return TOP
     return _amul(a, b)
+
+
+def aneg(x):
+    if JET is not None and isinstance(x, JET.JetNum):
+        return JET.neg(x)
+    return from_sym(-x.e)
+
+
+def adiv(a, b):
+    if JET is not None and (isinstance(a, JET.JetNum) or isinstance(b, JET.JetNum)):
+        return JET.div(a, b)
+    return from_sym(to_sym(a) / to_sym(b))
 
 
 def _amul(a, b):
@@ -162,6 +179,8 @@ def _amul(a, b):
 
 
 def aadd(a, b, sign=1):
+    if JET is not None and (isinstance(a, JET.JetNum) or isinstance(b, JET.JetNum)):
+        return JET.add(a, b, sign) if isinstance(a, (Aff, Poly)) and isinstance(b, (Aff, Poly)) else TOP
     if isinstance(a, Poly) or isinstance(b, Poly):
         if isinstance(a, (Aff, Poly)) and isinstance(b, (Aff, Poly)):
             return from_sym(to_sym(a) + sign * to_sym(b))
@@ -289,8 +308,8 @@ class Comma:
 
 
 class Lambda:
-    def __init__(self, body, env):
-        self.body, self.env = body, env
+    def __init__(self, body, env, params=()):
+        self.body, self.env, self.params = body, env, list(params or ())
 
 
 class Raised(Exception):
@@ -570,7 +589,7 @@ class Sym:
             return TOP
         if k == "LambdaExpr":
             body = [c for c in (n.get("ch") or []) if isinstance(c, dict) and c.get("k") == "CompoundStmt"]
-            return Lambda(body[-1] if body else None, env)
+            return Lambda(body[-1] if body else None, env, n.get("lparams"))
         if k in ("BinaryOperator", "CompoundAssignOperator") and n.get("op") in ("+=", "-=", "*=", "/="):
             a = self.ev(n["ch"][0], env)
             b = self.ev(n["ch"][1], env)
@@ -630,15 +649,19 @@ class Sym:
         m = as_mat(v)
         if m is not None:
             o = Mat(m.R, m.C)
-            o.cells = [(-x if isinstance(x, Aff) else (from_sym(-x.e) if isinstance(x, Poly) else TOP)) for x in m.cells]
+            o.cells = [(-x if isinstance(x, Aff) else (aneg(x) if isinstance(x, Poly) else TOP)) for x in m.cells]
             return o
         if isinstance(v, Aff):
             return -v
         if isinstance(v, Poly):
-            return from_sym(-v.e)
+            return aneg(v)
         return TOP
 
     def arith(self, op, a, b):
+        if isinstance(a, ElemView):
+            a = scalarize(a)          # a coefficient accessor (t(), x(), angle()) is a scalar
+        if isinstance(b, ElemView):
+            b = scalarize(b)
         ma, mb = as_mat(a), as_mat(b)
         if ma is None and mb is None:
             if (isinstance(a, Poly) or isinstance(b, Poly)) and isinstance(a, (Aff, Poly)) and isinstance(b, (Aff, Poly)):
@@ -649,9 +672,9 @@ class Sym:
                 if op == "*":
                     return amul(a, b)
                 if op == "/" and isinstance(b, Aff) and b.is_const() and b.c != 0:
-                    return from_sym(to_sym(a) / to_sym(b))
+                    return adiv(a, b)
                 if op == "/" and POLY == "expr":
-                    return from_sym(to_sym(a) / to_sym(b))
+                    return adiv(a, b)
                 return TOP
             if POLY == "expr" and op == "/" and isinstance(a, Aff) and isinstance(b, Aff) and not b.is_const():
                 return from_sym(to_sym(a) / to_sym(b))
@@ -707,11 +730,11 @@ class Sym:
                 return o
         if op == "/" and ma is not None and POLY == "expr" and isinstance(b, (Aff, Poly)) and not (isinstance(b, Aff) and b.is_const()):
             o = Mat(ma.R, ma.C)
-            o.cells = [(from_sym(to_sym(x) / to_sym(b)) if isinstance(x, (Aff, Poly)) else TOP) for x in ma.cells]
+            o.cells = [(adiv(x, b) if isinstance(x, (Aff, Poly)) else TOP) for x in ma.cells]
             return o
         if op == "/" and ma is not None and isinstance(b, Aff) and b.is_const() and b.c != 0:
             o = Mat(ma.R, ma.C)
-            o.cells = [(x.scale(1 / b.c) if isinstance(x, Aff) else TOP) for x in ma.cells]
+            o.cells = [(x.scale(1 / b.c) if isinstance(x, Aff) else (adiv(x, b) if isinstance(x, Poly) and POLY == "expr" else TOP)) for x in ma.cells]
             return o
         d = ma or mb
         return Mat.top(d.R, d.C)
@@ -759,8 +782,13 @@ class Sym:
             if isinstance(lv, Lambda):
                 if lv.body is None:
                     raise Unsupported("lambda without body")
+                lenv = dict(lv.env)
+                for pd, a in zip(lv.params, args):
+                    av = self.ev(a, env)
+                    am = as_mat(av)
+                    lenv[pd] = am.copy() if am is not None and not isinstance(av, View) else av
                 try:
-                    self.stmt(lv.body, dict(lv.env))
+                    self.stmt(lv.body, lenv)
                 except Returned as r:
                     return r.val
                 return None
@@ -796,6 +824,12 @@ class Sym:
             return Mat.top(dim[0], dim[1]) if dim else TOP
         # ---- Eigen ---------------------------------------------------------------------------
         if k in ("CXXConstructExpr", "CXXTemporaryObjectExpr"):
+            if cls == "Eigen::DiagonalMatrix" and len(args) in (2, 3):
+                vals = [scalarize(self.ev(a, env)) for a in args]     # DiagonalMatrix(d0, d1[, d2])
+                m = Mat(len(vals), len(vals), Aff(0))
+                for i, x in enumerate(vals):
+                    m.set(i, i, x if isinstance(x, (Aff, Poly)) else TOP)
+                return m
             if not args:
                 return Mat(dim[0], dim[1]) if dim else TOP
             if len([a for a in args if A.strip(a) is not None and not (isinstance(a, dict) and a.get("k") == "CXXDefaultArgExpr")]) == 1:
@@ -805,7 +839,7 @@ class Sym:
                 m = as_mat(v)
                 if m is not None:
                     return v if cls in ("Eigen::Ref", "Eigen::Block", "Eigen::VectorBlock") and isinstance(v, View) else m
-                if isinstance(v, Aff) and dim and dim[0] * dim[1] == 1:
+                if isinstance(v, (Aff, Poly)) and dim and dim[0] * dim[1] == 1:
                     return Mat(1, 1, v)
                 return Mat.top(dim[0], dim[1]) if dim else TOP
             if dim and len(args) == dim[0] * dim[1] and (dim[0] == 1 or dim[1] == 1):
@@ -872,7 +906,7 @@ class Sym:
             v = scalarize(self.ev(args[-1], env)) if args else TOP
             return Mat(dim[0], dim[1], v if isinstance(v, Aff) else TOP)
         v = self.view_of(o)
-        if name in ("noalias", "derived", "const_cast_derived", "eval", "matrix", "array", "cast", "template cast"):
+        if name in ("noalias", "derived", "const_cast_derived", "eval", "matrix", "array", "cast", "template cast", "toDenseMatrix"):
             return o
         if name == "coeffs" and cls.startswith("Eigen::Quaternion"):
             return o       # a quaternion's coefficient vector (x, y, z, w) is the quaternion's storage
